@@ -8,6 +8,7 @@ from .. import paths
 from ..core import FUNC, AnalysisError, inert, call_attr, calls_in, const, dotted, is_const, kwarg, norm, slice_parts, text, walk_local
 
 EXPLANATION = [
+    'C20.frame-info: RFCOMM_Frame.from_bytes takes the information field as data[3:-1] (one-octet length indicator) or data[4:-1] (two octets), i.e. everything between header and FCS, in both arms of the EA-bit test.',
     'C20.cind-ranges: the gateway announces an indicator\'s values as (min-max) exactly when the set has max-min+1 elements; the hands-free side expands a-b to range(a, b+1).',
     'C20.credit-guard: one iteration of DLC.process_tx is explored path by path with the branch facts it has accumulated: bytes leave tx_buffer only on paths where `tx_credits > 0` is known, and exactly those paths spend exactly one credit; credit-only frames spend none.',
     'C20.bounds: every slice taken from tx_buffer plus the credit byte that precedes it is at most DLC.mtu; what is consumed is what was taken; DLC.mtu <= min(tx_max_frame_size, peer L2CAP MTU - frame overhead) with the overhead computed from RFCOMM_Frame.__bytes__.',
@@ -204,6 +205,31 @@ def _lin_eq(a, b):
     ka = {k: v for k, v in a.items() if v}
     kb = {k: v for k, v in b.items() if v}
     return ka == kb
+
+
+def frame_info(ctx):
+    """RFCOMM_Frame.from_bytes: the information field is everything between the header (3 bytes with a one-octet length
+    indicator, 4 with two) and the FCS octet -- the length indicator does not count the credit octet of a UIH frame with
+    P/F = 1, so the field cannot be cut by it."""
+    R, p = ctx.r, ctx.p
+    rule = 'C20.frame-info'
+    fn = p.find('bumble.rfcomm.RFCOMM_Frame.from_bytes')
+    tb = p.find('bumble.rfcomm.RFCOMM_Frame.__bytes__')
+    if fn is None or tb is None:
+        R.bad(rule, 'bumble.rfcomm.RFCOMM_Frame.from_bytes', 'anchor missing')
+        return
+    arms = [n for n in walk_local(fn) if isinstance(n, ast.If) and norm(n.test) in ('length & 1', 'length & 1 != 0', 'length & 1 == 1')]
+    if len(arms) != 1:
+        R.bad(rule, 'bumble.rfcomm.RFCOMM_Frame.from_bytes | EA bit', f'{len(arms)} tests of the EA bit of the length indicator', p.loc(fn))
+        return
+    got = []
+    for hdr, blk in ((3, arms[0].body), (4, arms[0].orelse)):
+        asg = [n for n in blk if isinstance(n, ast.Assign) and dotted(n.targets[0]) == 'information']
+        sp = slice_parts(asg[0].value) if len(asg) == 1 else None
+        got.append(sp)
+        R.check(sp == ('data', str(hdr), '-1'), rule, f'bumble.rfcomm.RFCOMM_Frame.from_bytes | information, {hdr}-byte header', f'information = data[{hdr}:-1]',
+                f'with a {hdr}-byte header the information field is taken as {sp}: not everything between header and FCS (a frame that carries a credit octet loses its last payload byte, or keeps the FCS)', p.loc(asg[0]) if asg else p.loc(fn))
+    R.check("fcs = data[-1]" in norm(fn), rule, 'bumble.rfcomm.RFCOMM_Frame.from_bytes | fcs', 'FCS = last octet', 'FCS position changed', p.loc(fn))
 
 
 def bounds(ctx):
@@ -1146,6 +1172,7 @@ def cind_ranges(ctx):
 
 
 RULES = [
+    ('C20.frame-info', frame_info),
     ('C20.cind-ranges', cind_ranges),
     ('C20.credit-guard', credit_guard),
     ('C20.bounds', bounds),
